@@ -4,5 +4,8 @@ CONSTANTS
   MaxTriesSet = {1, 2}
   MaxList = 2
   Devs = {}
+  RwSets = {{}}
+  Utf8Set = {FALSE}
+  BounceStages = {"ok"}
   Gen = TRUE
 CHECK_DEADLOCK FALSE
